@@ -458,6 +458,27 @@ func (r *c05Run) issueNewNotices(before map[noticeKey]bool) {
 	}
 }
 
+// the condition under which Task.changeStatus -> Change.taskStatusChanged -> detectChangeReady panics
+// ("unexpectedly became unready"), evaluated without changing anything
+func c05WouldPanic(t *Task, c *Change, newSt Status) bool {
+	old := t.status
+	if old == newSt || (newSt == DoneStatus && old == AbortStatus) || (newSt == WaitStatus && old == AbortStatus) {
+		return false
+	}
+	if old.Ready() == newSt.Ready() || !c.IsReady() {
+		return false
+	}
+	for _, tid := range c.taskIDs {
+		if o := c.state.tasks[tid]; o != t && !o.status.Ready() {
+			return false
+		}
+	}
+	t.status = newSt
+	cs := c.Status()
+	t.status = old
+	return !cs.Ready()
+}
+
 type c05Eff struct {
 	readyZero bool
 	occ       int
@@ -519,8 +540,8 @@ func (r *c05Run) apply(o c05Op) {
 		emit("OAddTask %s %s", c05N(c05ID(c.id)), c05N(c05ID(t.id)))
 	case "waitfor":
 		t, a := r.task(o.A), r.task(o.B)
-		// same change and an acyclic direction only (see notes/C05.md)
-		if t == nil || a == nil || t.change != a.change || c05ID(a.id) >= c05ID(t.id) {
+		// both linked to the same change and an acyclic direction only (see notes/C05.md)
+		if t == nil || a == nil || t.change == "" || t.change != a.change || c05ID(a.id) >= c05ID(t.id) {
 			return
 		}
 		t.WaitFor(a)
@@ -618,8 +639,9 @@ func (r *c05Run) apply(o c05Op) {
 			newSt = WaitStatus
 		}
 		c := t.Change()
-		// a ready change must not become unready again (detectChangeReady panics: that is C03's subject)
-		if c != nil && c.IsReady() && !newSt.Ready() {
+		// a change whose ready channel is closed must not come out of this write with an unready status
+		// (detectChangeReady panics: that is C03's subject, not C05's): skip exactly the writes that would panic
+		if c != nil && c05WouldPanic(t, c, newSt) {
 			return
 		}
 		before := r.noticeKeys()
